@@ -1,9 +1,9 @@
 /-
   SpVerif.Model.Subgroups — the iterative subgroup resolution of `ArgumentParser._preprocessing`
-  (simple_parsing/parsing.py:520-554), `_resolve_subgroups` (parsing.py:599-773),
-  `_remove_subgroups_from_namespace` (parsing.py:775-792), the per-alternative field defaults of
+  (simple_parsing/parsing.py:546-584), `_resolve_subgroups` (parsing.py:629-803),
+  `_remove_subgroups_from_namespace` (parsing.py:805-822), the per-alternative field defaults of
   `DataclassWrapper.__init__` (wrappers/dataclass_wrapper.py:94-111) and the `add_argument` options of a
-  subgroup field (helpers/subgroups.py:55-204, wrappers/field_wrapper.py:711-727,797-802,956-969).
+  subgroup field (helpers/subgroups.py:55-204, wrappers/field_wrapper.py:714-736,802-807,961-975).
 
   Reused: `Model/Naming` (option strings of a field), `Model/Conflicts` (the resolver that is re-run
   after every round), `Model/Engine` (`Act`, the `type=` callables).
@@ -26,7 +26,7 @@ open SpVerif
 /-- keywords of a `functools.partial` / attributes of a frozen instance (leaf fields only) -/
 abbrev Kw := List (Str × Scalar)
 
-/-- what a value of the `subgroups` dict is (parsing.py:707-720) -/
+/-- what a value of the `subgroups` dict is (parsing.py:733-744) -/
 inductive AltKind
   | cls         -- a dataclass type
   | part        -- `functools.partial(Cls, **kw)`
@@ -59,7 +59,7 @@ def Alts.find : Alts → Str → Option (AltKind × Kw × Cls)
   | .nil, _ => none
   | .cons k kind kw cls rest, key => if k = key then some (kind, kw, cls) else rest.find key
 
-/-- `subgroups.keys()` — the `choices=` of the option (helpers/subgroups.py:118,197) -/
+/-- `subgroups.keys()` — the `choices=` of the option (helpers/subgroups.py:116,197) -/
 def Alts.keys : Alts → List Str
   | .nil => []
   | .cons k _ _ _ rest => k :: rest.keys
@@ -83,7 +83,7 @@ inductive RKind
   /-- plain field: `type=` and the effective default (`FieldWrapper.default`) -/
   | leaf (conv : BConv) (dflt : Option Scalar)
   /-- subgroup field: declared default key, whether a default was pushed onto it from the enclosing
-      partial/instance (`set_default`, dataclass_wrapper.py:121-128), and the dict -/
+      partial/instance (`set_default`, dataclass_wrapper.py:124-131), and the dict -/
   | sub (dflt : Option Str) (forced : Bool) (alts : Alts)
 
 /-- one `FieldWrapper` of the flattened wrapper list -/
@@ -113,7 +113,7 @@ def recsOf (parentDest : Str) (level : Nat) (kw : Kw) (forced : Bool) : Flds →
 
 /-- the `cmd=False` fields of a wrapped entry never reach the constructor arguments, so their value is
     whatever the entry itself produces: the partial keyword / the instance's attribute
-    (`functools.partial(dataclasses.replace, instance)`, parsing.py:707-710), else the class default -/
+    (`functools.partial(dataclasses.replace, instance)`, parsing.py:734-738), else the class default -/
 def hiddenOf (dest : Str) (kw : Kw) : Flds → List (Str × Val)
   | .nil => []
   | .leaf _ _ _ rest => hiddenOf dest kw rest
@@ -238,13 +238,13 @@ inductive ROut (α : Type)
   | raise (e : Exc)
   | unmodelled
 
-/-- `unresolved_subgroups` (parsing.py:621,756-759), in `_flatten_wrappers` order -/
+/-- `unresolved_subgroups` (parsing.py:651,786-789), in `_flatten_wrappers` order -/
 def unresolved (st : RState) : List SRec :=
   st.recs.filter (fun r => r.isSub && !(st.resolved.any (fun p => p.1 = r.dest)))
 
-/-- parsing.py:657-678: add every unresolved subgroup option to the choice parser.
+/-- parsing.py:685-703: add every unresolved subgroup option to the choice parser.
     A default pushed from an enclosing instance onto a subgroup field that declares a default key
-    trips the `assert argument_options["default"] is subgroup_field.subgroup_default`;
+    trips the `assert argument_options["default"] is subgroup_field.subgroup_default` (parsing.py:692);
     an option string that is already registered makes `add_argument` raise `ArgumentError`. -/
 def register (cfg : Cfg) : List Act → List SRec → Except Exc (List Act)
   | tbl, [] => .ok tbl
@@ -267,7 +267,7 @@ def insertChild (p : Str) (new : List SRec) : List SRec → List SRec
   | [] => new
   | r :: rs => if rs.any (inSubtree p) then r :: insertChild p new rs else r :: (new ++ rs)
 
-/-- parsing.py:690-750 for one resolved subgroup field -/
+/-- parsing.py:716-773 for one resolved subgroup field -/
 def expandOne (ns : List (Str × Val)) (r : SRec)
     (acc : List SRec × List (Str × Str) × List (Str × Str) × List (Str × Val)) :
     Except Exc (List SRec × List (Str × Str) × List (Str × Str) × List (Str × Val)) :=
@@ -293,11 +293,14 @@ def expandAll (ns : List (Str × Val)) :
     | .error e => .error e
     | .ok acc' => expandAll ns rs acc'
 
-/-- write the prefixes computed by the resolver back onto the field wrappers -/
-def applyPrefs (recs : List SRec) (frs : List FieldRec) : List SRec :=
-  List.zipWith (fun r f => { r with fr := { r.fr with pref := f.pref } }) recs frs
+/-- write the prefixes computed by the resolver back onto the field wrappers (the resolver mutates
+    `FieldWrapper.prefix` in place and returns the same wrappers: `Props/C03.c03_frame_length`) -/
+def applyPrefs : List SRec → List FieldRec → List SRec
+  | [], _ => []
+  | r :: rs, [] => r :: rs
+  | r :: rs, f :: fs => { r with fr := { r.fr with pref := f.pref } } :: applyPrefs rs fs
 
-/-- `self._conflict_resolver.resolve(wrappers)` (parsing.py:754, also parsing.py:532) -/
+/-- `self._conflict_resolver.resolve(wrappers)` (parsing.py:784, also parsing.py:564) -/
 def reResolve (cfg : Cfg) (mode : CR) (recs : List SRec) : Except Exc (List SRec) :=
   match resolve cfg mode (recs.map (·.fr)) with
   | .ok frs => .ok (applyPrefs recs frs)
@@ -309,7 +312,7 @@ def tableOk (tbl : List Act) : Bool :=
   tbl.all (fun a => a.opts.all (fun o => startsWith o ['-', '-'] && decide (o.length > 2) &&
     !startsWith helpOpt o))
 
-/-- one iteration of the `for current_nesting_level in itertools.count()` loop (parsing.py:649-762) -/
+/-- one iteration of the `for current_nesting_level in itertools.count()` loop (parsing.py:678-801) -/
 def round (cfg : Cfg) (mode : CR) (st : RState) (argv : List (Str × Str)) : ROut RState :=
   let un := unresolved st
   match register cfg st.ctbl un with
@@ -338,7 +341,7 @@ def loop (cfg : Cfg) (mode : CR) : Nat → RState → List (Str × Str) → ROut
     | .raise e => .raise e
     | .unmodelled => .unmodelled
 
-/-- `parser.add_arguments(root, dest)` followed by `resolve_and_flatten` (parsing.py:527-532) -/
+/-- `parser.add_arguments(root, dest)` followed by `resolve_and_flatten` (parsing.py:562-564) -/
 def initState (cfg : Cfg) (mode : CR) (dest : Str) (root : Cls) : Except Exc RState :=
   match reResolve cfg mode (recsOf dest 1 [] false root.fields) with
   | .error e => .error e
@@ -372,8 +375,8 @@ inductive Out
 
 def mainTable (cfg : Cfg) (st : RState) : List Act := st.recs.map (·.toAct cfg)
 
-/-- `parse_args` after the rounds: `add_arguments` of every wrapper (parsing.py:540-548), the real
-    parse, `_remove_subgroups_from_namespace` (parsing.py:775-792) and the instantiation
+/-- `parse_args` after the rounds: `add_arguments` of every wrapper (parsing.py:572-580), the real
+    parse, `_remove_subgroups_from_namespace` (parsing.py:805-822) and the instantiation
     (every init field is passed to the chosen entry, so a leaf's value is its namespace entry) -/
 def finishParse (cfg : Cfg) (st : RState) (argv : List (Str × Str)) : Out :=
   let tbl := mainTable cfg st
@@ -387,7 +390,7 @@ def finishParse (cfg : Cfg) (st : RState) (argv : List (Str × Str)) : Out :=
               (fun r => (r.dest, (ns.lookup r.dest).getD (.sc .none))),
             classes := st.classes,
             -- the choice parser wrote its results into the very namespace the main parse starts from
-            -- (parsing.py:304-305,361,680-682), and argparse only fills in defaults for destinations
+            -- (parsing.py:304-305,361,706-708), and argparse only fills in defaults for destinations
             -- that are not there yet: an option the main parser does not see leaves the chosen key
             subgroups := (st.recs.filter (·.isSub)).map
               (fun r => (r.dest,
